@@ -90,6 +90,9 @@ func c11Content(c *core.Ctx) string {
 			} else {
 				line = "||é.example^"
 			}
+		case r == 17 && c.Rng.Intn(2) == 0:
+			// Hosts lines with tabs, cosmetic-looking comments etc.
+			line = c18MakeLine(c).Text
 		case r == 17:
 			line = "||nul\x00byte.example^"
 		case r == 18:
